@@ -171,15 +171,40 @@ Theorem C17_tales_not :
 Proof. exact TALESEvalFacts.not_law. Qed.
 Print Assumptions C17_tales_not.
 
-(* exists: / nocall: look the path up without calling its value *)
+(* exists: / nocall: look the path up without calling its value.  `strip1` = the first alternative is
+   stripped like the others (the repaired code, finding exists-nocall-first-alternative); first_alt true a = strip a *)
 Theorem C17_tales_exists_nocall :
   forall (val : Type) (v_false v_true : val) (truthy : val -> bool) (traverse : str -> bool -> option val)
-         (ev : str -> result val) p, mem_N BAR p = false ->
-    fst (eval_exists val v_false v_true truthy traverse ev p) =
-      Some (match traverse p false with Some _ => v_true | None => v_false end) /\
-    fst (eval_nocall val traverse ev p) = traverse p false.
+         (strip1 : bool) (ev : str -> result val) p, mem_N BAR p = false ->
+    fst (eval_exists val v_false v_true truthy traverse strip1 ev p) =
+      Some (match traverse (first_alt strip1 p) false with Some _ => v_true | None => v_false end) /\
+    fst (eval_nocall val traverse strip1 ev p) = traverse (first_alt strip1 p) false.
 Proof. exact TALESEvalFacts.exists_nocall_law. Qed.
 Print Assumptions C17_tales_exists_nocall.
+
+(* `exists:a | b`, `nocall:a | b` (repaired code): a first alternative that exists decides, whatever blanks
+   surround it; otherwise nocall: takes the first of the remaining expressions that exists *)
+Theorem C17_tales_exists_nocall_alternation :
+  forall (val : Type) (v_false v_true : val) (truthy : val -> bool) (traverse : str -> bool -> option val)
+         (ev : str -> result val) expr a r, split_on BAR expr = a :: r ->
+    (forall v, traverse (strip a) false = Some v ->
+       fst (eval_exists val v_false v_true truthy traverse true ev expr) = Some v_true /\
+       fst (eval_nocall val traverse true ev expr) = Some v) /\
+    (traverse (strip a) false = None ->
+       fst (eval_nocall val traverse true ev expr) = fst (first_found val ev r 0%nat)).
+Proof. exact TALESEvalFacts.exists_nocall_alternation_repaired. Qed.
+Print Assumptions C17_tales_exists_nocall_alternation.
+
+(* the pinned code (the first alternative keeps its trailing blank) does not find a path that exists *)
+Theorem C17_tales_exists_nocall_refuted :
+  exists (traverse : str -> bool -> option bool) (ev : str -> result bool) (expr a : str) (r : list str),
+    split_on BAR expr = a :: r /\ traverse (strip a) false = Some true /\
+    fst (eval_nocall bool traverse false ev expr) = None /\
+    fst (eval_nocall bool traverse true ev expr) = Some true /\
+    fst (eval_exists bool false true (fun b => b) traverse false ev expr) = Some false /\
+    fst (eval_exists bool false true (fun b => b) traverse true ev expr) = Some true.
+Proof. exact TALESEvalFacts.first_alt_pinned_refuted. Qed.
+Print Assumptions C17_tales_exists_nocall_refuted.
 
 (* ---- termination: enough fuel exists ----
    For every well-formed program in which no sub-template can be called (no macros, no slot fillers:
